@@ -44,6 +44,18 @@ def strategy_(g):
                 operand = g.compact_increment(k, max_scale=1.0)
                 if k == "se2" and rnd.random() < 0.3:
                     operand[2] = g.angle(big=True)
+                if rnd.random() < 0.2:
+                    # the increment as an integer-dtype ndarray (whole metres / whole radians)
+                    operand = [rnd.randint(-3, 3) for _ in range(R.PDIM[k])]
+                    if k == "se2":
+                        operand.append(rnd.randint(-7, 7))
+                    else:
+                        rot = [0, 0, 0]
+                        if rnd.random() < 0.5:
+                            rot[rnd.randrange(3)] = rnd.choice([1, -1])
+                        operand += rot
+                    prog.append({"op": op, "x": operand, "rep": rep, "xdtype": rnd.choice(["int64", "int32", "int16"])})
+                    continue
             else:
                 operand = g.pose(k, s=1.0, big_angle=True)["v"]
             prog.append({"op": op, "x": operand, "rep": rep})
@@ -124,8 +136,10 @@ def _check_chain(case, ctx):
     for e in case["prog"]:
         op = e["op"]
         if op == "boxplus":
-            x = np.array(e["x"], dtype=float)
-            xa = XA.frac(x[2]) if k == "se2" else None
+            x = np.array(e["x"], dtype=e.get("xdtype") or float)
+            if e.get("xdtype"):
+                ctx.event("boxplus-increment-dtype:" + e["xdtype"])
+            xa = XA.frac(float(x[2])) if k == "se2" else None
         else:
             x = gs.mk_pose_kv(k, e["x"])
             if k == "se2":
